@@ -253,6 +253,47 @@ def group_aliases(tree: ast.Module) -> ast.Module:
     return tree
 
 
+def extend_generators(tree: ast.Module) -> ast.Module:
+    """`xs.extend(E for v in IT if c)`  ==>  `for v in IT:` / `if c:` / `xs.append(E)`   (statement form only)."""
+    changed = False
+
+    def block(stmts):
+        nonlocal changed
+        out = []
+        for st in stmts:
+            for f in ("body", "orelse", "finalbody"):
+                b = getattr(st, f, None)
+                if isinstance(b, list) and b and isinstance(b[0], ast.stmt):
+                    setattr(st, f, block(b))
+            if isinstance(st, ast.Try):
+                for h in st.handlers:
+                    h.body = block(h.body)
+            if isinstance(st, ast.Expr) and isinstance(st.value, ast.Call) and isinstance(st.value.func, ast.Attribute) and st.value.func.attr == "extend" \
+                    and len(st.value.args) == 1 and not st.value.keywords and isinstance(st.value.args[0], (ast.GeneratorExp, ast.ListComp)):
+                comp = st.value.args[0]
+                body = [ast.Expr(value=ast.Call(func=ast.Attribute(value=st.value.func.value, attr="append", ctx=ast.Load()), args=[comp.elt], keywords=[]))]
+                for g in reversed(comp.generators):
+                    for cond in reversed(g.ifs):
+                        body = [ast.If(test=cond, body=body, orelse=[])]
+                    body = [ast.For(target=g.target, iter=g.iter, body=body, orelse=[])]
+                for n_ in body:
+                    ast.copy_location(n_, st)
+                    ast.fix_missing_locations(n_)
+                out += body
+                changed = True
+                continue
+            out.append(st)
+        return out
+    t2 = copy.deepcopy(tree)
+    for n in ast.walk(t2):
+        if isinstance(n, (ast.FunctionDef, ast.AsyncFunctionDef)):
+            n.body = block(n.body)
+    if changed:
+        ast.fix_missing_locations(t2)
+        return t2
+    return tree
+
+
 def plain_assignments(tree: ast.Module) -> ast.Module:
     """`x: T = v`  ==>  `x = v`   (an annotated assignment with a value is an assignment; the annotation is not evaluated for
     the rules' purposes).  Bare declarations `x: T` are kept."""
